@@ -853,10 +853,24 @@ pub fn drive_c19(t: &Tier, m: &mut Matrix, sink: &mut Sink) {
 // ------------------------------------------------------------------------------------------------
 
 pub fn forms_event(t: &Tier, op: &'static str, kx: Kind, xb: &Bits, y: &YSpec, ky: Option<Kind>, a: &Args, forms: &[&'static str]) -> (Value, String) {
+    forms_event_prep(t, op, kx, xb, y, ky, a, forms, Prep::Fresh, Prep::Fresh)
+}
+
+/// the same with the operands produced by the given preparations (spare capacity, heap mode of the auto type, ...)
+pub fn forms_event_prep(t: &Tier, op: &'static str, kx: Kind, xb: &Bits, y: &YSpec, ky: Option<Kind>, a: &Args, forms: &[&'static str], px: Prep, py: Prep) -> (Value, String) {
     let mut fs = Vec::new();
-    let (yv0, yd) = Step { op, f: "", y: y.clone(), ykind: ky, a: a.clone() }.operand();
-    let x0 = AnyBv::fresh(kx, xb);
+    let (yv0, mut yd) = Step { op, f: "", y: y.clone(), ykind: ky, a: a.clone() }.operand();
+    let yv0 = match (&yv0, y) {
+        (Y::Vec(_), YSpec::Bits(b)) => {
+            let (v, ok) = make(ky.unwrap(), b, py);
+            yd = ydesc_vec(&v, &if ok { py.name() } else { "fresh".into() });
+            Y::Vec(v)
+        }
+        _ => yv0,
+    };
+    let (x0, okx) = make(kx, xb, px);
     let st0 = observe(&x0);
+    let px_name = if okx { px.name() } else { "fresh".to_string() };
     for f in forms {
         let mut x = x0.clone();
         let preclone = x.clone();
@@ -888,7 +902,7 @@ pub fn forms_event(t: &Tier, op: &'static str, kx: Kind, xb: &Bits, y: &YSpec, k
     let key = json!(fs.iter().map(|f| json!([f["res"], f["xs"], f["ys"]])).collect::<Vec<_>>()).to_string();
     let ev = json!({
         "op": op, "f": "*", "r": "s", "nb": 1, "cf": "forms", "dbg": t.dbg as u8,
-        "x": xdesc(&x0, &st0, "fresh"), "y": yd, "a": a.to_json(),
+        "x": xdesc(&x0, &st0, &px_name), "y": yd, "a": a.to_json(),
         "px": pdesc(&st0), "py": yv0.bits(), "o": Out::Unit.to_json(), "forms": fs,
     });
     (ev, key)
@@ -915,7 +929,9 @@ pub fn drive_c20(t: &Tier, sink: &mut Sink, stats: &mut Stats) {
                 for (i, kx) in xk.iter().enumerate() {
                     for j in 0..t.q(2, 6) {
                         let ky = yk[(rot + i * 3 + j * 5) % yk.len()];
-                        let (ev, key) = forms_event(t, op, *kx, x, &YSpec::Bits(y.clone()), Some(ky), &Args::default(), &FORMS6);
+                        let preps = [Prep::Fresh, Prep::Heap, Prep::Spare, Prep::Shrunk, Prep::Fresh, Prep::Reserved, Prep::Summed];
+                        let (ppx, ppy) = (preps[(rot + i) % preps.len()], preps[(rot / 3 + j + i) % preps.len()]);
+                        let (ev, key) = forms_event_prep(t, op, *kx, x, &YSpec::Bits(y.clone()), Some(ky), &Args::default(), &FORMS6, ppx, ppy);
                         stats.execs += 6;
                         if let Some(g) = groups.iter_mut().find(|g| g.0 == key) {
                             g.2 += 1;
@@ -936,7 +952,8 @@ pub fn drive_c20(t: &Tier, sink: &mut Sink, stats: &mut Stats) {
             let mut groups: Vec<(String, Value, u64)> = Vec::new();
             for kx in ALL_KINDS.iter().copied().filter(|k| k.admits(x.len())) {
                 let forms: [&'static str; 9] = ["vv", "vr", "rv", "rr", "av", "ar", "iv:D", "iv:A", "iv:F128x1"];
-                let (ev, key) = forms_event(t, op, kx, x, &YSpec::Int(ty, v), None, &Args::default(), &forms);
+                let preps = [Prep::Fresh, Prep::Heap, Prep::Spare, Prep::Shrunk];
+                let (ev, key) = forms_event_prep(t, op, kx, x, &YSpec::Int(ty, v), None, &Args::default(), &forms, preps[rot % preps.len()], Prep::Fresh);
                 stats.execs += 9;
                 if let Some(g) = groups.iter_mut().find(|g| g.0 == key) {
                     g.2 += 1;
@@ -955,7 +972,8 @@ pub fn drive_c20(t: &Tier, sink: &mut Sink, stats: &mut Stats) {
             let a = Args { n: Some(k), ity: Some(ty), ..Default::default() };
             let mut groups: Vec<(String, Value, u64)> = Vec::new();
             for kx in ALL_KINDS.iter().copied().filter(|k| k.admits(x.len())) {
-                let (ev, key) = forms_event(t, op, kx, x, &YSpec::None, None, &a, &FORMS6);
+                let preps = [Prep::Fresh, Prep::Heap, Prep::Spare, Prep::Shrunk];
+                let (ev, key) = forms_event_prep(t, op, kx, x, &YSpec::None, None, &a, &FORMS6, preps[rot % preps.len()], Prep::Fresh);
                 stats.execs += 6;
                 if let Some(g) = groups.iter_mut().find(|g| g.0 == key) {
                     g.2 += 1;
